@@ -2,6 +2,7 @@ package characteristic
 
 import (
 	"fmt"
+	"math"
 	"net"
 
 	"github.com/xiam/to"
@@ -163,12 +164,24 @@ func (c *Characteristic) onValueUpdateFromConn(funcs []ConnChangeFunc, conn net.
 }
 
 func (c *Characteristic) clampFloat(value float64) interface{} {
+	// NaN (e.g. converted from the string "NaN") compares false with every bound
+	// and cannot be encoded as JSON
+	if math.IsNaN(value) {
+		value = 0
+	}
+
 	min, minOK := c.MinValue.(float64)
 	max, maxOK := c.MaxValue.(float64)
 	if maxOK == true && value > max {
 		value = max
 	} else if minOK == true && value < min {
 		value = min
+	}
+
+	// An infinite value (e.g. converted from the string "1e999") which is not
+	// limited by a bound cannot be encoded as JSON either
+	if math.IsInf(value, 0) {
+		value = math.Copysign(math.MaxFloat64, value)
 	}
 
 	return value
